@@ -227,6 +227,15 @@ Definition C02_commit (g : cfg) (sg : seg) (sn : snap) : bool :=
      and no manual creation: no record *)
   (sg_modified sg || sg_manual sg || match sg_allowed sg with [] => false | _ => true end ||
    match ntx with [] => true | _ => false end) &&
+  (* (d') ... judged by what really changed, not by what the attribute histories said: a record needs an entity that
+     was added, deleted or really changed, an association pair that was touched, a row of the application's tables
+     that differs from the start of the transaction (a relationship to a non-versioned class is stored there), a new
+     activity, or a manual creation *)
+  (sg_manual sg || match sg_allowed sg with [] => false | _ => true end ||
+   match sg_assoc sg with [] => false | _ => true end || match sg_dirtydel sg with [] => false | _ => true end ||
+   negb (set_eqb lrow_eqb (sn_live sn) (sn_live (sg_before sg))) ||
+   negb (length (sn_acts sn) =? length (sn_acts (sg_before sg)))%nat ||      (* an activity was written (ActivityPlugin) *)
+   match ntx with [] => true | _ => false end) &&
   (* (e) no dangling reference *)
   no_dangling sn.
 
